@@ -335,7 +335,10 @@ def target_process_assembly():
         par = Parallel([Element("R2"), Element("C2")])
         cases = {"R[CL](RC)": [r, inner, par], "[CL]R": [mk_series("[CL]", [c, l_]), r], "single series": [mk_series("[RC]", [r, c])], "single element": [r], "single parallel": [par]}
         for name, items in cases.items():
-            class Me:
+            ns = {"Series": Series, "Parallel": Parallel, "Element": Element, "Connection": Connection, "Circuit": Circuit, "isinstance": isinstance, "type": type, "len": len,
+                  "Tokenizer": type("Tokenizer", (), {"process": lambda self, s_: [f"token{k}" for k in range(len(items))]}), "ParsingError": type("ParsingError", (Exception,), {})}
+
+            class Me(O.auto_methods("circuit/parser", "Parser", ns)):      # (a helper method process() is refactored to call is taken from the real class)
                 def __init__(self):
                     self._stack, self._tokens, self.loops = [], [], 0
 
@@ -359,8 +362,6 @@ def target_process_assembly():
 
                 def get_stack_length(self):
                     return len(self._stack)
-            ns = {"Series": Series, "Parallel": Parallel, "Element": Element, "Connection": Connection, "Circuit": Circuit, "isinstance": isinstance, "type": type, "len": len,
-                  "Tokenizer": type("Tokenizer", (), {"process": lambda self, s_: [f"token{k}" for k in range(len(items))]}), "ParsingError": type("ParsingError", (Exception,), {})}
             O.load("circuit/parser", ["Parser.process"], ns)
             me = Me()
             out = ns["process"](me, "some code")
